@@ -9,25 +9,27 @@ type reopenVar struct {
 }
 
 type Alpha struct {
-	Writes       bool
-	RemoveAbsent bool
-	NoRemove     bool
-	SetNil       bool
-	Save         bool
-	Rollback     bool
-	Reopen       []reopenVar // variants; nil = no reopen
-	ReopenOlder  bool        // reopen may also load an older retained version
-	LoadVersion  bool
-	DelTo        bool
-	LVFO         bool
-	DelFrom      bool
-	MaxVersions  int64 // stop committing new versions beyond this latest (0 = unlimited)
-	MaxPrunes    int   // max number of successful-or-not DeleteVersionsTo calls (0 = unlimited)
-	Reads        bool  // read-only deviations (bounded by Spec.MaxReads)
-	Import       bool  // export/import of a retained version (plain and compressed)
-	SaveCS       bool  // SaveChangeSet with one of a few fixed change sets (only when nothing is pending)
-	ReadAll      bool  // one macro read-only operation that reads everything (warms node and fast caches)
-	Exports      bool  // open (and fully read) / close an export of a retained version: pins the version
+	Writes        bool
+	RemoveAbsent  bool
+	NoRemove      bool
+	SetAbsentOnly bool // Set only keys that are absent from the working state (insertions)
+	SetNil        bool
+	Save          bool
+	Rollback      bool
+	Reopen        []reopenVar // variants; nil = no reopen
+	ReopenOlder   bool        // reopen may also load an older retained version
+	LoadVersion   bool
+	DelTo         bool
+	LVFO          bool
+	DelFrom       bool
+	MaxVersions   int64 // stop committing new versions beyond this latest (0 = unlimited)
+	MaxPrunes     int   // max number of successful-or-not DeleteVersionsTo calls (0 = unlimited)
+	HashReads     bool  // the hash / proof queries on the working tree as unbounded read-only operations
+	Reads         bool  // read-only deviations (bounded by Spec.MaxReads)
+	Import        bool  // export/import of a retained version (plain and compressed)
+	SaveCS        bool  // SaveChangeSet with one of a few fixed change sets (only when nothing is pending)
+	ReadAll       bool  // one macro read-only operation that reads everything (warms node and fast caches)
+	Exports       bool  // open (and fully read) / close an export of a retained version: pins the version
 }
 
 func countKind(hist []Op, k OpKind) int {
@@ -45,6 +47,9 @@ func (a Alpha) Ops(w *World, s *Spec) []Op {
 	var ops []Op
 	if a.Writes {
 		for _, k := range s.Keys {
+			if _, present := m.WorkC[string(k)]; present && a.SetAbsentOnly {
+				continue
+			}
 			for _, v := range s.Vals {
 				ops = append(ops, Op{Kind: OpSet, Key: k, Val: v})
 			}
@@ -74,6 +79,9 @@ func (a Alpha) Ops(w *World, s *Spec) []Op {
 	}
 	if a.ReadAll && w.Cfg.Cache > 0 {
 		ops = append(ops, Op{Kind: OpRead, Arg: 12})
+	}
+	if a.HashReads && len(m.WorkC) > 0 {
+		ops = append(ops, Op{Kind: OpRead, Arg: 7}, Op{Kind: OpRead, Arg: 8, Key: s.Keys[0]})
 	}
 	if a.Reads && w.NReads < s.MaxReads {
 		for arg := 0; arg < nReadCalls; arg++ {
